@@ -329,3 +329,156 @@ Proof.
   - intros k a a1 w0 st Hh Hf Ha. apply (dhole_sound k a a1 w0 st Hh Hf Ha).
   - subst st'. exact R.
 Qed.
+
+(* ---------------------------------------------------------------- record labels *)
+Lemma rstate_eqb_eq a b : rstate_eqb a b = true -> a = b.
+Proof. destruct a, b; cbn; try discriminate; reflexivity. Qed.
+
+Lemma opt_rstate_eqb_eq a b : opt_rstate_eqb a b = true -> a = b.
+Proof.
+  destruct a as [x|], b as [y|]; cbn; try discriminate; try reflexivity.
+  intro H. apply rstate_eqb_eq in H. congruence.
+Qed.
+
+Lemma not_in_ctrl x : ~ In x ctrl_chars -> is_ctrl x = false.
+Proof.
+  intro H. unfold is_ctrl.
+  repeat (apply orb_false_iff; split); apply N.eqb_neq; intro E; apply H; subst x; cbn; tauto.
+Qed.
+
+Lemma chain_rsafe_unit chain :
+  chain_rsafe chain = true -> forall x, rrun RNorm (esc1 chain x) = Some RNorm.
+Proof.
+  intros Hs x. unfold chain_rsafe in Hs. rewrite forallb_forall in Hs.
+  destruct (in_dec N.eq_dec x (c_bslash :: ctrl_chars ++ map fst chain)) as [Hin|Hout].
+  - apply opt_rstate_eqb_eq. apply Hs. exact Hin.
+  - rewrite esc1_other by (intro H; apply Hout; right; apply in_or_app; right; exact H).
+    assert (Hb : N.eqb x c_bslash = false) by (apply N.eqb_neq; intro E; apply Hout; left; symmetry; exact E).
+    assert (Hc : is_ctrl x = false) by (apply not_in_ctrl; intro H; apply Hout; right; apply in_or_app; left; exact H).
+    unfold rrun. cbn [run rstep]. rewrite Hc, Hb. reflexivity.
+Qed.
+
+Lemma chain_rsafe_rrun chain :
+  chain_rsafe chain = true -> forall s, rrun RNorm (apply_chain chain s) = Some RNorm.
+Proof.
+  intros Hs s. rewrite apply_chain_flat.
+  induction s as [|x s IH]; [reflexivity|].
+  cbn [flat_map]. unfold rrun in *. rewrite run_app.
+  pose proof (chain_rsafe_unit chain Hs x) as Hx. unfold rrun in Hx. rewrite Hx. exact IH.
+Qed.
+
+Lemma escape_chain_rsafe : chain_rsafe escape_chain = true.
+Proof. vm_compute. reflexivity. Qed.
+
+Lemma dot_escape_rrun s : rrun RNorm (dot_escape s) = Some RNorm.
+Proof. apply chain_rsafe_rrun. exact escape_chain_rsafe. Qed.
+
+Lemma rrun_tail_dots (y : rstate) : rrun y [46; 46; 46; 39]%N = Some RNorm.
+Proof. destruct y; reflexivity. Qed.
+
+Lemma dot_repr_rrun s : rrun RNorm (dot_repr_str s) = Some RNorm.
+Proof.
+  unfold dot_repr_str, rrun. destruct (Nat.ltb repr_limit (length (dot_escape s))).
+  - change ([39%N] ++ firstn repr_limit (dot_escape s) ++ [46; 46; 46; 39]%N)
+      with ([39%N] ++ (firstn repr_limit (dot_escape s) ++ [46; 46; 46; 39]%N)).
+    rewrite run_app. change (run rstep RNorm [39%N]) with (Some RNorm). cbv iota.
+    rewrite run_app.
+    destruct (run_prefix rstep RNorm (firstn repr_limit (dot_escape s)) (skipn repr_limit (dot_escape s)) RNorm) as [y Hy].
+    { rewrite firstn_skipn. apply dot_escape_rrun. }
+    rewrite Hy. apply rrun_tail_dots.
+  - rewrite run_app. change (run rstep RNorm [39%N]) with (Some RNorm). cbv iota.
+    rewrite run_app. pose proof (dot_escape_rrun s) as He. unfold rrun in He. rewrite He. reflexivity.
+Qed.
+
+Lemma is_ctrl_false c : is_ctrl c = false ->
+  N.eqb c 123 = false /\ N.eqb c 125 = false /\ N.eqb c 124 = false /\ N.eqb c 60 = false /\ N.eqb c 62 = false.
+Proof.
+  unfold is_ctrl. intro H.
+  apply orb_false_iff in H as [H H5]. apply orb_false_iff in H as [H H4].
+  apply orb_false_iff in H as [H H3]. apply orb_false_iff in H as [H1 H2]. tauto.
+Qed.
+
+Lemma rrun_lrun (u : list N) : forall r r', rrun r u = Some r' -> lrun (LIn r) u = Some (LIn r').
+Proof.
+  induction u as [|c u IH]; intros r r' H.
+  - cbn in H. inversion H; subst. reflexivity.
+  - unfold rrun in H. cbn [run] in H. unfold lrun. cbn [run].
+    destruct r; cbn [rstep] in H; cbn [lstep].
+    + destruct (is_ctrl c) eqn:Ec; [discriminate|].
+      destruct (is_ctrl_false c Ec) as [H1 [H2 [H3 [H4 H5]]]].
+      rewrite H1, H2, H3, H4, H5. cbn [orb].
+      destruct (N.eqb c c_bslash); apply (IH _ r' H).
+    + apply (IH RNorm r' H).
+Qed.
+
+Lemma lstep_plain c : plain_char c = true -> lstep (LIn RNorm) c = Some (LIn RNorm).
+Proof.
+  intro Hc.
+  assert (H123 := plain_not 123 eq_refl c Hc). assert (H125 := plain_not 125 eq_refl c Hc).
+  assert (H124 := plain_not 124 eq_refl c Hc). assert (H60 := plain_not 60 eq_refl c Hc).
+  assert (H62 := plain_not 62 eq_refl c Hc). assert (H92 := plain_not 92 eq_refl c Hc).
+  cbn [lstep]. unfold c_bslash. rewrite H123, H125, H124, H60, H62, H92. reflexivity.
+Qed.
+
+Lemma lstate_eqb_eq a b : lstate_eqb a b = true -> a = b.
+Proof.
+  destruct a as [|x|], b as [|y|]; cbn; try discriminate; try reflexivity.
+  intro H. apply rstate_eqb_eq in H. congruence.
+Qed.
+
+Lemma lhole_sound k a a' w st :
+  lhole k a = Some a' -> fills k w -> a = st -> exists st', run lstep st w = Some st' /\ a' = st'.
+Proof.
+  intros Hh Hf <-.
+  assert (Ha : a = LIn RNorm /\ a' = LIn RNorm /\ k <> HHtml /\ k <> HRaw).
+  { destruct k, a as [|[|]|]; cbn in Hh; try discriminate; inversion Hh; subst; repeat split; discriminate. }
+  destruct Ha as [-> [-> [Hk1 Hk2]]].
+  exists (LIn RNorm). split; [|reflexivity].
+  destruct k; try congruence.
+  1-3: (apply run_plain; [intros c Hc; apply lstep_plain, Hc | eapply plain_of_kind; [|exact Hf]; auto]).
+  - destruct Hf as [s ->]. apply (rrun_lrun (dot_escape s) RNorm RNorm (dot_escape_rrun s)).
+  - destruct Hf as [[s ->]|Hp].
+    + apply (rrun_lrun (dot_repr_str s) RNorm RNorm (dot_repr_rrun s)).
+    + apply run_plain; [intros c Hc; apply lstep_plain, Hc | exact Hp].
+Qed.
+
+Theorem label_sound t : label_ok t = true -> forall w, gen t w -> lrun LStart w = Some LDone.
+Proof.
+  unfold label_ok. intros H w Hg.
+  destruct (tx_run lstate_eqb lstep lhole t LStart) as [a'|] eqn:E; [|discriminate].
+  destruct a'; try discriminate.
+  destruct (tx_run_sound (fun a st => a = st) lstate_eqb lstep lstep lhole lstate_eqb_eq) with (t := t) (w := w) (a := LStart) (a' := LDone) (st := LStart)
+    as [st' [R G]]; try assumption; try reflexivity.
+  - intros a a1 c st Hs <-. exists a1. split; [exact Hs | reflexivity].
+  - intros k a a1 w0 st Hh Hf Ha. apply (lhole_sound k a a1 w0 st Hh Hf Ha).
+  - subst st'. exact R.
+Qed.
+
+(* ---------------------------------------------------------------- PlantUML braces *)
+Lemma bstep_plain d c : plain_char c = true -> bstep d c = Some d.
+Proof.
+  intro Hc. assert (H123 := plain_not 123 eq_refl c Hc). assert (H125 := plain_not 125 eq_refl c Hc).
+  unfold bstep. rewrite H123, H125. reflexivity.
+Qed.
+
+Lemma bhole_sound k a a' w st :
+  bhole k a = Some a' -> fills k w -> a = st -> exists st', run bstep st w = Some st' /\ a' = st'.
+Proof.
+  intros Hh Hf <-.
+  assert (Hk : (k = HDigits \/ k = HIdent \/ k = HPlain) /\ a' = a).
+  { destruct k; cbn in Hh; try discriminate; inversion Hh; auto. }
+  destruct Hk as [Hk ->]. exists a. split; [|reflexivity].
+  apply run_plain; [intros c Hc; apply bstep_plain, Hc | eapply plain_of_kind; eauto].
+Qed.
+
+Theorem braces_sound t : braces_ok t = true -> forall w, gen t w -> brun false w = Some false.
+Proof.
+  unfold braces_ok. intros H w Hg.
+  destruct (tx_run Bool.eqb bstep bhole t false) as [a'|] eqn:E; [|discriminate].
+  destruct a'; try discriminate.
+  destruct (tx_run_sound (fun a st => a = st) Bool.eqb bstep bstep bhole Bool.eqb_prop) with (t := t) (w := w) (a := false) (a' := false) (st := false)
+    as [st' [R G]]; try assumption; try reflexivity.
+  - intros a a1 c st Hs <-. exists a1. split; [exact Hs | reflexivity].
+  - intros k a a1 w0 st Hh Hf Ha. apply (bhole_sound k a a1 w0 st Hh Hf Ha).
+  - subst st'. exact R.
+Qed.
